@@ -243,6 +243,8 @@ def run(ctx):
                     "FFTW wisdom shared through XDG_DATA_HOME")
     ctx.trusted.add("process-level determinism (uninitialised memory; FFTW's planner: that a plan re-created from stored wisdom is the stored plan) is "
                     "established by the repeated runs only, not by a theorem; the logic that stores and re-uses the wisdom is (C12_wisdom_after_one_run_nothing_is_planned)")
+    ctx.trusted.add("translate/fpenv2coq.py: lexical scan (names of FPFUNCS / PRAGMAS / ASMWORDS / BUILDFLAGS listed there) - a way of changing the "
+                    "floating-point environment that is not on those lists is not seen by the theorem, only by the tails runs")
     dis = []
     # decision rule: a broken proof/translation stage does not stop the check - the property oracle still runs on
     # the binary to look for a concrete failing input; only the model comparison is skipped
